@@ -15,6 +15,7 @@ pub fn dispatch(f: &[String]) -> String
         "lc" => op_lc(f),
         "nav" => op_nav(f),
         "drv" => op_drv(f),
+        "lst" => op_lst(f),
         "parse" => op_parse(f),
         "ofmt" => op_ofmt(f),
         _ => format!("{{\"unknown_op\":{}}}", json::string(&f[0])),
@@ -223,6 +224,65 @@ pub fn op_asm(f: &[String]) -> String
     s.push_str(&format!("\"printed\":{}", json::string(&String::from_utf8_lossy(&printed))));
     s.push('}');
     s
+}
+
+
+/// lst <format_string_hex> asm <fields of the asm op...> : assemble, then render the output in the given format;
+/// the answer carries the rendered text, the bits and spans, and every defined symbol with its declaration data.
+pub fn op_lst(f: &[String]) -> String
+{
+    let text = json::unhex_str(&f[1]);
+    let g = &f[2..];
+    let mut opts = asm::AssemblyOptions::new();
+    opts.max_iterations = g[1].parse().unwrap();
+    opts.optimize_statically_known = g[2] == "1";
+    opts.optimize_instruction_matching = g[3] == "1";
+    let nroots: usize = g[5].parse().unwrap();
+    let nfiles: usize = g[6].parse().unwrap();
+    let mut fileserver = util::FileServerMock::new();
+    let mut roots = Vec::new();
+    for i in 0..nfiles
+    {
+        let name = json::unhex_str(&g[7 + 2 * i]);
+        let content = json::unhex(&g[8 + 2 * i]);
+        if i < nroots { roots.push(name.clone()); }
+        fileserver.add(name, content);
+    }
+    let mut report = diagn::Report::new();
+    let fmt = match crate::driver::parse_output_format(&mut report, &text)
+    {
+        Ok(fmt) => fmt,
+        Err(()) => return format!("{{\"fmt_err\":{}}}", json::string(&first_error(&report))),
+    };
+    let result = asm::assemble(&mut report, &opts, &mut fileserver, &roots);
+    let (out, decls, defs) = match (result.output.as_ref(), result.decls.as_ref(), result.defs.as_ref())
+    {
+        (Some(o), Some(d), Some(e)) if !report.has_errors() => (o, d, e),
+        _ => return format!("{{\"asm_err\":{}}}", json::string(&first_error(&report))),
+    };
+    let bytes = crate::driver::format_output(&fileserver, decls, defs, out, fmt);
+    let mut syms: Vec<String> = Vec::new();
+    for o in defs.symbols.defs.iter()
+    {
+        if let Some(sy) = o
+        {
+            let decl = decls.symbols.get(sy.item_ref);
+            let bank = match sy.bankdef_ref
+            {
+                Some(r) =>
+                {
+                    let b = defs.bankdefs.get(r);
+                    format!("{{\"addr_start\":{},\"outp\":{}}}", bigint_json(&b.addr_start),
+                        match b.output_offset { Some(o) => o.to_string(), None => "null".to_string() })
+                }
+                None => "null".to_string(),
+            };
+            syms.push(format!("{{\"name\":{},\"kind\":\"{:?}\",\"depth\":{},\"no_emit\":{},\"value\":{},\"bank\":{}}}",
+                json::string(&decl.name), decl.kind, decl.depth, sy.no_emit,
+                json::string(&value_str(&sy.value)), bank));
+        }
+    }
+    format!("{{\"text\":\"{}\",\"output\":{{{}}},\"symdefs\":[{}]}}", json::hex(&bytes), bitvec_json(out, &fileserver), syms.join(","))
 }
 
 
